@@ -193,7 +193,7 @@ const c01Rule = "rapid draws core size, read/write/process limits, every cell of
 
 func TestC01(t *testing.T) {
 	formSeen := make([]int32, gen.NumForms)
-	n := hx.Scale(40000, 4000000)
+	n := hx.Scale(40000, 32000000)
 	rec := hx.Run(t, hx.Prop[stepCase]{
 		ID: "C01", Sub: "step", Rule: c01Rule, Checks: n,
 		Gen:   func(rt *rapid.T) stepCase { return genStepCase(rt, nil, 0) },
